@@ -658,6 +658,12 @@ def _maker_sites(repo: Repo, T, ctx: FuncInfo, node_iter, classes: dict[str, str
                     ps = _positional(callee)
                     el = comp.elem(comp.tag(n.args[1]))
                     seeds = {ps[0]: el} if ps and el else {}
+            elif isinstance(orig.func, (ast.Name, ast.Attribute)) and (orig.func.id if isinstance(orig.func, ast.Name) else orig.func.attr) == "starmap" and len(n.args) == 2:
+                # starmap(factory, specs): factory(*spec) for every (identifier, is-regex) pair
+                callee = _fn_of(T, c_ctx, orig.args[0])
+                if callee is not None and comp.elem(comp.tag(n.args[1])) == "SPEC":
+                    ps = _positional(callee)
+                    seeds = {p_: t_ for p_, t_ in zip(ps, ("NAME", "FLAG"))}
             else:
                 try:
                     cs, how = T.callees(c_ctx, orig, byname_fallback=False)
@@ -680,7 +686,7 @@ def _maker_sites(repo: Repo, T, ctx: FuncInfo, node_iter, classes: dict[str, str
             if not _direct_ref(repo, T, c_ctx, orig):
                 continue
             p = parent(n)
-            if isinstance(p, ast.Call) and p.args and p.args[0] is n and isinstance(p.func, ast.Name) and p.func.id in ("map", "partial"):
+            if isinstance(p, ast.Call) and p.args and p.args[0] is n and (p.func.id if isinstance(p.func, ast.Name) else getattr(p.func, "attr", "")) in ("map", "partial", "starmap"):
                 continue  # handled with the call
             try:
                 t = T.expr(c_ctx, orig)
@@ -862,3 +868,88 @@ def check_filter_selection(repo: Repo, res: Result, receiver: FuncInfo | None) -
             bad.append(f"`{norm(n, 50)}` creates a parent-module filter from a layer's (identifier, is-regex) pair")
     ok = not bad
     res.add("C05.R1", construct, ok, "regex modules become regex filters, named modules name filters" if ok else "the regex flag does not select ModuleNameRegexFilter vs ModuleNameFilter: " + "; ".join(bad[:2]), where(receiver, receiver.node), kind="dominance")
+
+
+# --------------------------------------------------------------------------- layers_that: the wrapped rule judges with the layer matcher
+
+
+def check_matcher_wiring(repo: Repo, res: Result) -> None:
+    """`layers_that` builds the wrapped Rule with the configured (layer) matcher class bound to the layer mapping of the
+    architecture: without it the module rule is judged per module, not per layer."""
+    T = types_of(repo)
+    lr = repo.cls(LAYER_RULE, "LayerRule")
+    rule = repo.cls(RULE, "Rule")
+    m = repo.lookup_method(lr, "layers_that")
+    construct = f"{lr.module.relpath}::LayerRule.layers_that::matcher bound to the layer mapping"
+    if m is None or m.is_abstract:
+        res.add("C05.R1", construct, False, "LayerRule.layers_that no longer exists", kind="structural")
+        return
+    view = dview(repo, m, lr, family(repo, lr), tag="lr")
+    ctors = []
+    for n in all_nodes(view):
+        if isinstance(n, ast.Call):
+            src = getattr(n, "_src", None)
+            ctx, orig = src if src is not None else (view, n)
+            try:
+                ci = T.ctor_class(ctx, orig)
+            except Exception:  # noqa: BLE001
+                ci = None
+            if ci is not None and ci.fq == rule.fq:
+                ctors.append(n)
+    if len(ctors) != 1:
+        res.undecide("C05.R1", construct, f"{len(ctors)} constructions of Rule in the inlined view of layers_that (expected one)", where(m, m.node))
+        return
+    c = ctors[0]
+    arg = next((k.value for k in c.keywords if k.arg and "matcher" in k.arg), None) or (c.args[0] if c.args else None)
+    if arg is None:
+        res.add("C05.R1", construct, False, "the wrapped Rule is built with the default (module) matcher: the lenient one-unit-per-layer judgement is not applied", where_of(view, c), kind="structural")
+        return
+    v = single_value(view, arg)
+
+    def is_layer_mapping(x: ast.expr) -> bool:
+        x = single_value(view, x)
+        if isinstance(x, ast.Attribute) and x.attr == "layer_mapping":
+            return True
+        src = getattr(x, "_src", None)
+        ctx, orig = src if src is not None else (view, x)
+        try:
+            t = T.expr(ctx, orig)
+        except Exception:  # noqa: BLE001
+            return False
+        return any(mm[0] == "cls" and mm[1].endswith(".LayerMapping") for mm in members(t))
+
+    def is_matcher_class(x: ast.expr) -> bool | None:
+        x = single_value(view, x)
+        src = getattr(x, "_src", None)
+        ctx, orig = src if src is not None else (view, x)
+        try:
+            t = T.expr(ctx, orig)
+        except Exception:  # noqa: BLE001
+            return None
+        kinds = [mm for mm in members(t) if mm[0] == "type"]
+        if not kinds:
+            return None
+        names_ = {mm[1].rsplit(".", 1)[-1] for mm in kinds}
+        return "LayerRuleMatcher" in names_ or any(n_ not in ("DefaultRuleMatcher", "RuleMatcher") for n_ in names_)
+
+    bound, factory = None, None
+    if isinstance(v, ast.Call) and (v.args or v.keywords):
+        fname = v.func.attr if isinstance(v.func, ast.Attribute) else v.func.id if isinstance(v.func, ast.Name) else ""
+        if fname == "partial" and v.args:
+            factory = v.args[0]
+            bound = [a for a in [*v.args[1:], *[k.value for k in v.keywords]] if is_layer_mapping(a)]
+    elif isinstance(v, ast.Lambda) and isinstance(v.body, ast.Call):
+        factory = v.body.func
+        bound = [a for a in [*v.body.args, *[k.value for k in v.body.keywords]] if is_layer_mapping(a)]
+    if factory is None:
+        res.undecide("C05.R1", construct, f"the matcher factory `{norm(v, 60)}` handed to the wrapped Rule is neither a partial nor a lambda over the matcher class", where_of(view, c))
+        return
+    mc = is_matcher_class(factory)
+    if mc is False:
+        res.add("C05.R1", construct, False, f"the wrapped Rule is built with `{norm(factory, 40)}`, not with the layer matcher: the one-unit-per-layer judgement is not applied", where_of(view, c), kind="structural")
+    elif not bound:
+        res.add("C05.R1", construct, False, "the matcher of the wrapped Rule is not bound to the layer mapping of the architecture", where_of(view, c), kind="flow")
+    elif mc is None:
+        res.undecide("C05.R1", construct, f"cannot tell which matcher class `{norm(factory, 40)}` denotes", where_of(view, c))
+    else:
+        res.add("C05.R1", construct, True, "the wrapped Rule judges with the configured layer matcher, bound to the architecture's layer mapping", where_of(view, c), kind="flow")
